@@ -32,7 +32,8 @@ PROPS['C07'] = dict(
           'counter wraps arbitrarily often): in every reachable state the identifiers of retained packets and pending '
           'PUBRELs are in 1..65535 and pairwise distinct (invariant closed under every session step, lifted through the '
           'machine refinement), and the allocator returns a non-zero identifier not in flight (pigeonhole over 17 '
-          'candidates). Model tied to the code by differential runs with the counter preset next to the wrap point '
+          'candidates) — exactly the first identifier, in cyclic order from the counter, that is not in flight '
+          '(C07_allocator_exact: nothing but identifiers in use is skipped). Model tied to the code by differential runs with the counter preset next to the wrap point '
           'and onto identifiers in flight.',
     note='Trusted: Coq kernel, the model, extraction, harness, the packet-id setter hook. No axioms. The property was '
          'false on the unchanged tree (identifier reuse after wrap, unbounded SUBSCRIBE resend); repaired by fix 6dd89ae.')
